@@ -1342,7 +1342,9 @@ def run_c18(ctx):
     CfgR = _cc("Cfg", _R("Imply", x_, _R("Any", p_, r_), id="R2"), id="cfgr")
     CfgX = _cc("Cfg", dict(_cc("ccXor", p_, q_, r_, id="R5"), d="q"), id="cfgx")
     co_rules = [dict(_cc("ccXor", p_, q_, r_, id="R1"), d="q"), dict(_cc("ccXor", p_, q_, r_, id="R9"), d="q"), dict(_cc("ccAny", p_, q_, r_, id="R1"), d="q"),
-                _R("Imply", x_, _R("Any", p_, r_), id="R1"), _R("Imply", x_, _R("Any", p_, r_), id="R9"), _R("All", _R("Any", p_, r_), x_, id="R0")]
+                _R("Imply", x_, _R("Any", p_, r_), id="R1"), _R("Imply", x_, _R("Any", p_, r_), id="R9"), _R("All", _R("Any", p_, r_), x_, id="R0"),
+                # a whole configurator (a package of rules with its own id) added as ONE rule
+                _cc("Cfg", _R("Any", p_, q_, id="K1"), _R("Any", q_, r_, id="K2"), id="pack"), _cc("Cfg", _R("Any", p_, x_, id="K3"), LEAF("y"))]
     st2 = api_histories(ctx, "API_add_coincide", [(CfgR, CfgX)], ["add", "default_prios", "select"], 2, co_rules)
     c2 = [c for c in history_cases(ctx, st2, [CfgR, CfgX]) if any(x["op"] == "add" for x in c["calls"])]
     ctx.region("added_rule_shares_a_tagged_sub_proposition", len(c2))
